@@ -11,6 +11,8 @@ import numpy as np
 from vmon.ref import qubits as rq
 from vmon.core import to_numpy
 
+TECHNIQUE = ('runtime monitoring: postcondition on measure_quantum_vector (Born marginals by explicit summation, outcome has non-zero probability, post state == normalised projection, deterministic idempotent re-measurement) and a trace monitor on MeasureGate.forward inside circuits (recorded outcome/probabilities refer to the entering state), with mid-circuit measurement programs replayed by the reference')
+LEVEL_TEXT = ('Exploration, exhaustive over qubit subsets: all non-empty ascending subsets for n<=5 (quick) / n<=6 (thorough) x 9 state kinds x seeds until every outcome with probability >1e-3 was seen; teleportation and random circuits with mid-circuit measurements and index shifts.')
 RULE = ('cases = (state kind, n, ascending qubit subset, seed): every non-empty subset for n=1..5 (quick) / 1..6 (thorough) '
         'enumerated completely, times 9 state kinds, with seeds varied until every outcome of probability >1e-3 was observed '
         '(bounded); plus circuits with mid-circuit measurements replayed against the reference; non-trivial = the measured '
